@@ -338,6 +338,11 @@ func (s *Sim) Exec(a *Action) *Step {
 		s.W.FaultOps = map[string]error{a.opt("op"): errBackend}
 		st.Rec = &world.Rec{Kind: "local", Browser: a.B, Method: "LOCAL", Target: "faultnext " + a.opt("op"), Now: s.W.Now(), Before: s.W.Store.Snapshot()}
 		st.Rec.After = st.Rec.Before
+	case "hooknext":
+		// the application's own After-event listener answers the next request itself, or fails in it
+		s.W.HookMode = a.opt("mode")
+		st.Rec = &world.Rec{Kind: "local", Browser: a.B, Method: "LOCAL", Target: "hooknext " + a.opt("mode"), Now: s.W.Now(), Before: s.W.Store.Snapshot()}
+		st.Rec.After = st.Rec.Before
 	case "dropsid":
 		delete(bs.B.Jar, world.SidCookie)
 		bs.Pending = map[string]*Pend{}
@@ -528,6 +533,13 @@ func (s *Sim) newPassword(a *Action) string {
 		return fmt.Sprintf("New\x00Passw0rd!%d", s.R.Intn(1000))
 	case "one":
 		return "x"
+	case "hashshaped":
+		// a password that is itself a well-formed bcrypt hash string (of something else), at the hasher's
+		// cost or above: 60 bytes, upper/lower/digit/symbol — an ordinary, policy-conforming passphrase
+		// as far as anybody is concerned
+		h := []byte(Hash4(fmt.Sprintf("not-the-password-%d", s.R.Intn(1e6))))
+		copy(h[4:6], []string{"04", "05", "06", "10"}[s.R.Intn(4)])
+		return string(h)
 	}
 	return fmt.Sprintf("NewPassw0rd!%d", s.R.Intn(1e6))
 }
@@ -712,6 +724,9 @@ func (s *Sim) build(a *Action, bs *BState) world.Req {
 			rq.Method = m
 		}
 		rq.Path = w.P("/logout")
+		if v := a.opt("redir"); v != "" {
+			rq.Path += "?redir=" + url.QueryEscape(v)
+		}
 	case "register":
 		a.PID = s.resolvePID(a)
 		a.Secret = s.newPassword(a)
@@ -1103,6 +1118,8 @@ func (s *Sim) fillCode(a *Action, bs *BState, f map[string]string, kind string) 
 				break
 			}
 		}
+	case "emptysecret": // the current code of the EMPTY secret (anybody can compute it)
+		a.Secret = TOTPAt("", 0)
 	case "stale": // a far-away step of the right secret
 		a.Resolved, a.Secret = "wrong", "000004"
 		if sub != nil {
